@@ -97,6 +97,43 @@ fn tag_like(content: &[u8]) -> bool {
     content.windows(2).any(|w| w[0] == b'<' && (w[1].is_ascii_alphabetic() || w[1] == b'/' || w[1] == b'!' || w[1] == b'?'))
 }
 
+/// The texts of the D7 zones of a stream (comments / CDATA / raw text that contain something tag-like), sorted.
+pub fn d7_zone_texts(body: &[u8]) -> Vec<Vec<u8>> {
+    let mut v: Vec<Vec<u8>> = spans(body)
+        .iter()
+        .filter(|s| match s.kind {
+            Kind::Comment | Kind::Cdata => tag_like(&body[(s.start + 1).min(s.end)..s.end]),
+            Kind::RawText => tag_like(&body[s.start..s.end]),
+            _ => false,
+        })
+        .map(|s| body[s.start..s.end].to_vec())
+        .collect();
+    v.sort();
+    v
+}
+
+/// D7 also bites in the later stages of a filter chain: stage k tokenises the output of the stages before it chunk by
+/// chunk. When an earlier filter puts markup inside a comment or raw-text element (a value with tags appended to
+/// `<title>`), the input of stage k has a D7 zone that the body does not have, at boundaries no schedule can steer.
+/// True when some stage input (computed on the whole body) has a zone that the body lacks.
+pub fn d7_zone_created_by_chain(filters: &[serde_json::Value], headers: &[Header], body: &[u8]) -> bool {
+    if filters.len() < 2 {
+        return false;
+    }
+    let base = d7_zone_texts(body);
+    (1..filters.len()).any(|k| {
+        let inter = run_schedule(&filters[..k], headers, body, &Schedule::Whole).out;
+        let mut left = base.clone();
+        d7_zone_texts(&inter).into_iter().any(|z| match left.iter().position(|b| *b == z) {
+            Some(i) => {
+                left.swap_remove(i);
+                false
+            }
+            None => true,
+        })
+    })
+}
+
 pub fn d7_zone(body: &[u8]) -> Vec<bool> {
     let sp = spans(body);
     let mut z = vec![false; body.len() + 1];
